@@ -1,6 +1,7 @@
 package c13
 
 import (
+	"strings"
 	"reflect"
 	"context"
 	"fmt"
@@ -330,9 +331,17 @@ func c13Boundary(r *Rng) []c13Case {
 			return okSpec(true)
 		})
 	})
-	for _, pat := range []string{"all", "first", "last", "middle", "single"} {
+	for _, pat := range []string{"all", "first", "last", "middle", "single", "panic-all", "panic-first", "panic-last", "panic-middle"} {
 		pat := pat
-		add("batch-fails-"+pat, 8, defCexp, func(g *gen, c *c13Case) {
+		// panic-*: the batch fails by a panic inside the wrapped pipeline (contained by the runner): a failed batch like
+		// any other - the results of the batches that succeeded are returned, an error only when every batch failed
+		byPanic := strings.HasPrefix(pat, "panic-")
+		pat = strings.TrimPrefix(pat, "panic-")
+		fam := "batch-fails-" + pat
+		if byPanic {
+			fam = "batch-panics-" + pat
+		}
+		add(fam, 8, defCexp, func(g *gen, c *c13Case) {
 			n := 35
 			if pat == "single" {
 				n = 6
@@ -356,7 +365,7 @@ func c13Boundary(r *Rng) []c13Case {
 					bad = k == 2
 				}
 				if bad {
-					return []kit.Spec{{Mode: 1}}
+					return []kit.Spec{{Mode: 1, Panic: byPanic}}
 				}
 				return okSpec(true)
 			})
